@@ -955,3 +955,36 @@ package proto
 //@   modifies buf.Buf
 //@ callsite (InputColumn).EncodeStart
 //@   assert arg2 == *version {column-header-for-the-negotiated-revision}
+
+//@ -- LowCardinality column data on the wire (after Prepare): nothing at all for an empty column;
+//@ -- otherwise meta (update-all flags | key width code), dictionary size, dictionary, key count,
+//@ -- and the keys in the column of the announced width.  The vectored path performs the same steps.
+//@ contract (c *ColLowCardinality) EncodeColumn(b) props(C01,C14,C16)
+//@   requires c != nil && (len(c.Values) == 0 || b != nil) && c.index != nil
+//@   modifies b.Buf
+//@   ensures len(c.Values) == 0 ==> (b != nil ==> len(b.Buf) == old(len(b.Buf))) {nothing-for-an-empty-column}
+//@   ensures len(c.Values) > 0 ==> appendsOnly(b) && len(b.Buf) >= old(len(b.Buf)) + 24 {append-only}
+//@   ensures len(c.Values) > 0 && 0 <= c.key && c.key <= 3 ==> unle64(b.Buf[old(len(b.Buf))], b.Buf[old(len(b.Buf)) + 1], b.Buf[old(len(b.Buf)) + 2], b.Buf[old(len(b.Buf)) + 3], b.Buf[old(len(b.Buf)) + 4], b.Buf[old(len(b.Buf)) + 5], b.Buf[old(len(b.Buf)) + 6], b.Buf[old(len(b.Buf)) + 7]) == 1536 + c.key {meta-is-update-all-flags-plus-key-width}
+//@ callsite ColumnOf.EncodeColumn
+//@   assert len(b.Buf) == old(len(b.Buf)) + 16 {dictionary-follows-meta-and-its-size}
+//@ callsite (ColUInt8).EncodeColumn
+//@   assert c.key == 0 {one-byte-keys-only-when-announced}
+//@ callsite (ColUInt16).EncodeColumn
+//@   assert c.key == 1 {two-byte-keys-only-when-announced}
+//@ callsite (ColUInt32).EncodeColumn
+//@   assert c.key == 2 {four-byte-keys-only-when-announced}
+//@ callsite (ColUInt64).EncodeColumn
+//@   assert c.key == 3 {eight-byte-keys-only-when-announced}
+//@ contract (c *ColLowCardinality) WriteColumn(w) props(C09,C14)
+//@   requires c != nil && w != nil && wRI(w) && c.index != nil
+//@   modifies w.bufOffset, w.vec, w.buf.Buf
+//@   ensures wRI(w)
+//@   ensures len(c.Values) == 0 ==> len(w.buf.Buf) == old(len(w.buf.Buf)) && len(w.vec) == old(len(w.vec)) && w.bufOffset == old(w.bufOffset) {nothing-for-an-empty-column}
+//@ callsite (ColUInt8).WriteColumn
+//@   assert c.key == 0 {one-byte-keys-only-when-announced}
+//@ callsite (ColUInt16).WriteColumn
+//@   assert c.key == 1 {two-byte-keys-only-when-announced}
+//@ callsite (ColUInt32).WriteColumn
+//@   assert c.key == 2 {four-byte-keys-only-when-announced}
+//@ callsite (ColUInt64).WriteColumn
+//@   assert c.key == 3 {eight-byte-keys-only-when-announced}
